@@ -57,6 +57,23 @@ class SSeq:
                 return i
         return -1
 
+    def rfind(self, x, start=0, end=None):
+        n = len(self._d)
+        end = n if end is None else (min(end, n) if end >= 0 else max(n + end, 0))
+        start = max(start, 0) if start >= 0 else max(n + start, 0)
+        sub = [x] if isinstance(x, (int, SInt)) else ([ord(c) for c in x] if isinstance(x, str) else list(x))
+        m = len(sub)
+        for i in range(end - m, start - 1, -1):
+            if all((self._d[i + k] == sub[k]) if type(self._d[i + k]) is int and type(sub[k]) is int else _b(self._d[i + k] == sub[k]) for k in range(m)):
+                return i
+        return -1
+
+    def rindex(self, x, start=0, end=None):
+        i = self.rfind(x, start, end)
+        if i < 0:
+            raise ValueError("subsection not found")
+        return i
+
     def index(self, x, start=0, end=None):
         i = self.find(x, start, end)
         if i < 0:
